@@ -29,9 +29,48 @@ from harness.common import exc_name, jdump
 PID = "C08"
 TITLE = "Context addressing, formatting and update elements touch exactly the named item"
 LEAN_MODULES = ["LenaModel.Props.C08"]
-LEAN_SOURCES = ["LenaModel/Model/C08.lean", "LenaModel/Props/C08.lean"]
+LEAN_SOURCES = ["LenaModel/Model/C08.lean", "LenaModel/Props/C08.lean", "LenaModel/Lemmas/C08.lean",
+                "LenaModel/Lemmas/C08Fmt.lean", "LenaModel/Lemmas/C08Str.lean"]
 DRIVER = "drivers/C08.lean"
 THEOREMS = [
+    "Lena.C08.notations_agree",
+    "Lena.C08.get_eq_path",
+    "Lena.C08.get_non_dict",
+    "Lena.C08.get_bad_keys",
+    "Lena.C08.get_of_str_to_dict",
+    "Lena.C08.str_to_dict_errors",
+    "Lena.C08.contains_iff",
+    "Lena.C08.contains_empty",
+    "Lena.C08.format_exact",
+    "Lena.C08.format_init_total",
+    "Lena.C08.to_string_perm",
+    "Lena.C08.to_string_inj",
+    "Lena.C08.to_string_canonical",
+    "Lena.C08.to_string_reorder",
+    "Lena.C08.pyEq_iff",
+    "Lena.C08.update_exact",
+    "Lena.C08.update_value_cases",
+    "Lena.C08.merge_keeps_siblings",
+    "Lena.C08.update_keeps_data",
+    "Lena.C08.ucInit_subctx",
+    "Lena.C08.missing_key_matrix_value",
+    "Lena.C08.missing_key_outcomes",
+    "Lena.C08.present_key_outcome",
+    "Lena.C08.missing_key_matrix_template",
+    "Lena.C08.simple_update_outcome",
+    "Lena.C08.init_matrix",
+    "Lena.C08.delete_notations",
+    "Lena.C08.delete_exact",
+    "Lena.C08.delete_bare_and_empty",
+    "Lena.C08.delete_absent_noop",
+    "Lena.C08.fuw_plain",
+    "Lena.C08.fuw_template",
+    "Lena.C08.fuw_errors",
+    "Lena.C08.update_recursively_spec",
+    "Lena.C08.set_context_plain",
+    "Lena.C08.set_context_missing",
+    "Lena.C08.update_keeps_wf",
+    "Lena.C08.delete_keeps_wf",
 ]
 TRUSTED = [
     "Lean 4.33.0 kernel; axioms limited to propext, Classical.choice, Quot.sound (audited by #print axioms on every run)",
@@ -573,6 +612,23 @@ def _outcome(thunk, ident=MISSING):
     return o
 
 
+def _wjson(v):
+    return json.dumps(enc(v), separators=(",", ":"))
+
+
+def _code(thunk, ref):
+    """compact outcome of a lookup: '=' the item itself, 'D' the default object, an exception name, else the value"""
+    try:
+        r = thunk()
+    except Exception as e:
+        return exc_name(e)
+    if ref is not MISSING and r is ref:
+        return "="
+    if r is DFLT:
+        return "D"
+    return "r:" + _wjson(r)
+
+
 def _poke(v):
     """change every dictionary and list reachable from v in place"""
     if isinstance(v, dict):
@@ -603,13 +659,18 @@ def run_impl(case):
         out = []
         for p in _paths_of(case):
             ref = ref_get(d, p)
-            rec = {}
+            codes = []
             for tag, keys in _get_variants(p):
-                rec[tag] = _outcome(lambda: lc.get_recursively(d, keys), ref)
-                rec[tag + "d"] = _outcome(lambda: lc.get_recursively(d, keys, DFLT), DFLT if ref is MISSING else ref)
+                codes.append(_code(lambda: lc.get_recursively(d, keys), ref))
+                codes.append(_code(lambda: lc.get_recursively(d, keys, DFLT), ref))
             s = ".".join(p)
-            rec["c"] = _outcome(lambda: lc.contains(d, s))
-            out.append(rec)
+            try:
+                c = lc.contains(d, s)
+                codes.append("T" if c is True else "F" if c is False else "r:" + repr(c))
+            except Exception as e:
+                codes.append(exc_name(e))
+            codes.append("-" if ref is MISSING else _wjson(ref))
+            out.append("|".join(codes))
         return {"paths": out, "unchanged": strict_eq(d, snap)}
     if op == "getx":
         d = dec(case["d"])
@@ -856,17 +917,14 @@ def model_requests(case):
     if not _case_modelable(case):
         if case["op"] == "tostr":
             vs = [w for w in case["vs"] if modelable(w)]
-            return [{"op": "to_string", "vs": vs}]
+            return [{"op": "to_string", "vs": vs}, {"op": "pyeq", "vs": vs}]
         return []
     op = case["op"]
     if op == "addr":
-        ks, ss, ps = [], [], _paths_of(case)
-        for p in ps:
-            for tag, keys in _get_variants(p):
-                ks.append({"s": keys} if tag == "s" else {"l": keys} if tag == "l" else {"k": enc(keys)})
-            ss.append(".".join(p))
-        return [{"op": "get", "d": case["d"], "keys": ks}, {"op": "get", "d": case["d"], "keys": ks, "default": enc(DFLT)},
-                {"op": "contains", "d": case["d"], "ss": ss}, {"op": "path", "d": case["d"], "paths": ps}]
+        r = {"op": "addr", "d": case["d"], "alpha": case["alpha"], "maxlen": case["maxlen"], "default": enc(DFLT)}
+        if "alpha4" in case:
+            r["alpha4"] = case["alpha4"]
+        return [r]
     if op == "getx":
         r = {"op": "get", "d": case["d"], "keys": [case["keys"]]}
         if "default" in case:
@@ -883,7 +941,7 @@ def model_requests(case):
         t = template_of(case["pieces"]) if "pieces" in case else case["raw"]
         return [{"op": "format", "t": t, "ctxs": case["ctxs"]}]
     if op == "tostr":
-        return [{"op": "to_string", "vs": case["vs"]}]
+        return [{"op": "to_string", "vs": case["vs"]}, {"op": "pyeq", "vs": case["vs"]}]
     if op == "upd":
         r = {"op": "update_recursively", "d": case["d"], "other": case["other"]}
         if "value" in case:
@@ -923,23 +981,13 @@ def compare(case, res, replies):
             return f"model driver error: {m['err']}"
     op = case["op"]
     if op == "addr":
-        g, gd, cs, pr = replies
-        i = 0
-        for n, (p, rec) in enumerate(zip(_paths_of(case), res["paths"])):
-            for tag, _ in _get_variants(p):
-                for which, rep in ((tag, g), (tag + "d", gd)):
-                    msg = _cmp_out(f"get_recursively path {p} notation {which}", rec[which], rep["r"][i])
-                    if msg:
-                        return msg
-                i += 1
-            if rec["c"] != {"r": cs["r"][n]}:
-                return f"contains {'.'.join(p)!r}: impl {rec['c']} vs model {cs['r'][n]}"
-            # the model's reference notion getPath against the Python reference
-            ref = ref_get(dec(case["d"]), p)
-            mref = pr["r"][n]
-            if (ref is MISSING) != (isinstance(mref, dict) and mref.get("absent") is True) or \
-                    (ref is not MISSING and not weq(enc(ref), mref)):
-                return f"Lean getPath {p} = {mref} differs from the Python reference"
+        lines = replies[0]["r"]
+        if len(lines) != len(res["paths"]):
+            return f"addr: {len(lines)} model lines for {len(res['paths'])} paths"
+        for p, a, b in zip(_paths_of(case), res["paths"], lines):
+            if a != b:
+                return (f"path {p}: impl {a} vs model {b} (fields: per notation s,l,e[,v] the outcome without/with "
+                        f"default, contains, reference item)")
         return None
     if op == "getx":
         return _cmp_out("get_recursively", res, replies[0]["r"][0])
@@ -966,6 +1014,12 @@ def compare(case, res, replies):
         for i, (a, b) in enumerate(zip(impl, replies[0]["r"])):
             if a != {"r": b}:
                 return f"to_string #{i}: impl {a} vs model {b!r}"
+        # the model's notion of equal dictionaries (pyEq, proved equivalent to DictEq) against Python's
+        vs = [dec(w) for w in case["vs"] if modelable(w)]
+        for i, row in enumerate(replies[1]["r"]):
+            for j, m in enumerate(row):
+                if m != strict_eq(vs[i], vs[j]):
+                    return f"Lean pyEq({vs[i]!r}, {vs[j]!r}) = {m} differs from the (type-strict) Python equality"
         return None
     if op in ("upd", "fuw"):
         return _cmp_out(op, {k: v for k, v in res.items() if k in ("r", "e")}, replies[0])
@@ -1045,23 +1099,29 @@ def _oracle_addr(case, res):
         if not wf_path(p):
             continue
         ref = ref_get(d, p)
-        for tag, _ in _get_variants(p):
-            for which, dflt in ((tag, MISSING), (tag + "d", DFLT)):
-                r = rec[which]
-                what = f"get_recursively({d!r}, <path {p} in notation '{tag}'>{'' if dflt is MISSING else ', default'})"
-                msg = _expect_get(d, p, dflt, r, what)
-                if msg:
-                    return msg
-                if "r" in r and not r.get("same"):
-                    return f"{what}: returned an equal object, not the item itself"
+        variants = _get_variants(p)
+        parts = rec.split("|", 2 * len(variants) + 1)
+        refjson = "-" if ref is MISSING else _wjson(ref)
+        for n, (tag, _) in enumerate(variants):
+            for k, with_default in ((2 * n, False), (2 * n + 1, True)):
+                code = parts[k]
+                what = f"get_recursively({d!r}, <path {p} in notation '{tag}'>{', default' if with_default else ''})"
+                if ref is MISSING:
+                    want = "D" if with_default else "LenaKeyError"
+                    if code != want:
+                        return f"{what}: the item is absent, expected {'the default' if with_default else 'LenaKeyError'}, got {code}"
+                elif code != "=" and code != "r:" + refjson:
+                    return f"{what}: expected the item {ref!r}, got {code}"
         # contains agrees with get_recursively
         if not p:
             want = True
         else:
             parent = ref_get(d, p[:-1])
             want = ref is not MISSING or (parent is not MISSING and not isinstance(parent, dict) and str(parent) == p[-1])
-        if rec["c"] != {"r": want}:
-            return f"contains({d!r}, {'.'.join(p)!r}) = {rec['c']}, expected {want} (item {'present' if ref is not MISSING else 'absent'})"
+        c = parts[2 * len(variants)]
+        if c != ("T" if want else "F"):
+            return (f"contains({d!r}, {'.'.join(p)!r}) = {c}, expected {want} "
+                    f"(item {'present' if ref is not MISSING else 'absent'})")
     return None
 
 
@@ -1141,8 +1201,11 @@ def _oracle_format(case, res):
             return f"format_context({t!r}) raised {res['init']} (only LenaValueError is documented for a malformed string)"
         if t.count("{") != t.count("}") and res["init"] != "LenaValueError":
             return f"format_context({t!r}) with unbalanced braces: expected LenaValueError, got {res['init']}"
+        # "all other errors are raised only during formatting" (docstring): with a conversion or a format
+        # specification str.format may raise ValueError or TypeError; without them only ValueError (single brace)
+        allowed = (None, "LenaKeyError", "Other:ValueError") + (("Other:TypeError",) if ("!" in t or ":" in t) else ())
         for w, c in zip(case["ctxs"], res.get("calls", [])):
-            if c.get("e") not in (None, "LenaKeyError", "Other:ValueError"):
+            if c.get("e") not in allowed:
                 return f"format_context({t!r})({dec(w)!r}) raised {c['e']}"
             if not c["unchanged"]:
                 return f"format_context({t!r})({dec(w)!r}) changed the context"
@@ -1264,7 +1327,10 @@ def _oracle_fuw(case, res):
     d = dec(case["d"])
     key = case["key"]
     what = f"format_update_with({key!r}, {_template_arg(case['value'])!r}, {d!r})"
-    if res.get("e") not in (None, "LenaKeyError", "LenaValueError", "LenaTypeError", "Other:ValueError"):
+    v = case["value"]
+    spec = isinstance(v, dict) and "raw" in v and ("!" in v["raw"] or ":" in v["raw"])
+    if res.get("e") not in (None, "LenaKeyError", "LenaValueError", "LenaTypeError", "Other:ValueError") and \
+            not (spec and res.get("e") == "Other:TypeError"):
         return f"{what} raised {res['e']}"
     if "e" in res and not strict_eq(dec(res["d"]), d):
         return f"{what} raised {res['e']} but changed d to {dec(res['d'])!r}"
@@ -1499,7 +1565,7 @@ def oracle(case, res):
 def nontrivial(case, res):
     op = case["op"]
     if op == "addr":
-        return any("r" in rec["s"] for rec in res["paths"][1:]) and any("e" in rec["s"] for rec in res["paths"])
+        return any(rec.startswith("=") for rec in res["paths"][1:]) and any(rec.startswith("Lena") for rec in res["paths"])
     if op in ("getx", "upd", "fuw"):
         return True
     if op == "s2d":
@@ -1522,11 +1588,11 @@ def classify(case, res):
     if op == "addr":
         hit = {"present": 0, "absent": 0, "contains-via-str": 0}
         for rec in res["paths"]:
-            if "r" in rec["s"]:
+            if rec.startswith("="):
                 hit["present"] += 1
             else:
                 hit["absent"] += 1
-                if rec["c"] == {"r": True}:
+                if "|T|-" in rec:
                     hit["contains-via-str"] += 1
         labels += [f"addr:{k}" for k, v in hit.items() if v]
     elif op == "getx":
